@@ -2,6 +2,8 @@
 
 package publicip
 
+import "net/http"
+
 // VerifSetIPCheckers replaces the provider list and returns a restore function.
 func VerifSetIPCheckers(urls []string) (restore func()) {
 	old := ipCheckers
@@ -11,3 +13,10 @@ func VerifSetIPCheckers(urls []string) (restore func()) {
 
 // VerifIPCheckerCallTimeoutNs exposes the per-provider timeout.
 const VerifIPCheckerCallTimeoutNs = int64(ipCheckerCallTimeout)
+
+// VerifNewFetcher builds the real fetcher over the given transport (no network).
+func VerifNewFetcher(rt http.RoundTripper) *PublicIPFetcher {
+	f := NewPublicIPFetcher()
+	f.client = &http.Client{Transport: rt}
+	return f
+}
